@@ -75,7 +75,7 @@ theorem reachP_inv {P : Layout → List Coord → Prop} {ok : Layout → List Co
     rw [ht]
     exact ⟨⟨ih.rest.customs, ih.rest.noOvr, ih.rest.ovrClean, ih.rest.cur, ih.rest.unmod, ih.rest.unshift,
       ih.rest.caps, ih.rest.scroll, ih.rest.hscroll, ih.rest.moveV, ih.rest.moveH, ih.rest.wfi, ih.rest.vk,
-      ih.rest.mcd⟩, ih.lay, ih.sync⟩
+      ih.rest.mcd, ih.rest.seqOff⟩, ih.lay, ih.sync⟩
 
 theorem mayBlock_of_invP {P : Layout → List Coord → Prop} {ok : Layout → List Coord → Ev → Prop}
     (hP : LayoutInvP P ok) {k : KState} {down : List Coord} (h : KInvP P k down) (hidle : isIdle k = true) :
